@@ -179,6 +179,11 @@ def body(chk):
                     out = ("ok", float(r[0]), float(r[1]))
                 except Exception as e:
                     out = ("exc", type(e).__name__ + ": " + str(e)[:60])
+                # the other public routes to the significant-digit reading: a bare numeral handed to hedge_interpret
+                via = run_hedge(text)
+                chk.count("bare-via-hedge_interpret", key=("bare-hi", text))
+                if via != out and not (via[0] == out[0] == "exc"):
+                    chk.report("hedge:sgnumber:route", f"hedge_interpret('{text}') = {via[1:]} differs from sgnumber('{text}') = {out[1:]}", {"kind": "route", "text": text})
             else:
                 out = run_hedge(phrase)
             results[kw] = out
